@@ -2,7 +2,10 @@
 
 package hpack
 
-import "bytes"
+import (
+	"bytes"
+	"sync"
+)
 
 // VerifHuffmanDecodeMax exposes huffmanDecode(buf, maxLen, v) on a fresh buffer.
 func VerifHuffmanDecodeMax(maxLen int, v []byte) ([]byte, error) {
@@ -13,3 +16,10 @@ func VerifHuffmanDecodeMax(maxLen int, v []byte) ([]byte, error) {
 
 // VerifHuffmanCode returns the (code, length) table entry of a symbol.
 func VerifHuffmanCode(sym byte) (uint32, uint8) { return huffmanCodes[sym], huffmanCodeLen[sym] }
+
+// VerifResetHuffmanRoot puts the lazily built decode tree back into its initial (not yet built)
+// state, so that the next decodes are "first use" again. Only call while no decode is running.
+func VerifResetHuffmanRoot() {
+	buildRootOnce = sync.Once{}
+	lazyRootHuffmanNode = nil
+}
